@@ -1,66 +1,60 @@
-/-! Prototype: NNEvaluator first-layer incremental state (nneval.cpp) refines from-scratch accumulation.
-    Accumulator values are `Int` (one lane); weights `W : Nat → Int` arbitrary. -/
+import TexelVerif.NN.Model
+/-! One perspective, one lane with exact integer arithmetic (`V = Int`): the pending add/sub queues with
+    capacity 4 and overflow-to-invalid keep `l1 + ΣW(toAdd) − ΣW(toSub) = fresh (kingSqComputed) board`,
+    and a flush yields the from-scratch value for the current king square. -/
 namespace NN
 
-abbrev Sq := Nat            -- 0..63
-abbrev Pc := Nat            -- piece code as in piece.hpp, 0 = empty, 1 = WKING, 7 = BKING
-abbrev Board := Sq → Pc     -- total function; squares ≥ 64 are always empty by convention
+variable (N : Net Int)
 
-def isNonKing (p : Pc) : Bool := p != 0 && p != 1 && p != 7
+def sumW (l : List Nat) : Int := (l.map N.W).sum
 
-/-- feature index of piece p on square s seen from perspective c with king on k (abstract, any function) -/
-structure Net where
-  idx : Bool → Sq → Pc → Sq → Nat     -- idx c kingSq piece sq
-  W : Nat → Int
-  bias : Int
+theorem addRows_eq (x : Int) (l : List Nat) : addRows N x l = x + sumW N l := by
+  unfold addRows sumW
+  induction l generalizing x with
+  | nil => simp
+  | cons a l ih => simp only [List.foldl_cons, List.map_cons, List.sum_cons]; rw [ih]; omega
 
-variable (N : Net)
+theorem subRows_eq (x : Int) (l : List Nat) : subRows N x l = x - sumW N l := by
+  unfold subRows sumW
+  induction l generalizing x with
+  | nil => simp
+  | cons a l ih => simp only [List.foldl_cons, List.map_cons, List.sum_cons]; rw [ih]; omega
 
 def contrib (c : Bool) (k : Sq) (b : Board) (s : Sq) : Int :=
   if isNonKing (b s) then N.W (N.idx c k (b s) s) else 0
 
-/-- from-scratch accumulator for perspective c with king square k -/
-def fresh (c : Bool) (k : Sq) (b : Board) : Int :=
-  N.bias + ((List.range 64).map (contrib N c k b)).sum
+theorem sumW_filterMap (f : Nat → Option Nat) (l : List Nat) :
+    sumW N (l.filterMap f) = (l.map fun s => match f s with | some i => N.W i | none => 0).sum := by
+  unfold sumW
+  induction l with
+  | nil => simp
+  | cons a l ih =>
+    simp only [List.filterMap_cons, List.map_cons, List.sum_cons]
+    cases h : f a with
+    | none => simp [ih]
+    | some i => simp [ih]
 
-def sumW (l : List Nat) : Int := (l.map N.W).sum
+/-- from-scratch accumulator as a sum over the squares -/
+theorem fresh_eq (c : Bool) (k : Sq) (b : Board) :
+    fresh N c k b = N.bias + ((List.range 64).map (contrib N c k b)).sum := by
+  unfold fresh activeFeatures
+  rw [addRows_eq, sumW_filterMap]
+  congr 2
+  apply List.map_congr_left
+  intro s _
+  unfold contrib
+  by_cases h : isNonKing (b s) = true <;> simp [h]
 
-/-- one perspective's incremental state -/
-structure FLS where
-  l1 : Int
-  toAdd : List Nat
-  toSub : List Nat
-  ksq : Option Sq            -- kingSqComputed
-deriving Inhabited
+def FLS.bal (s : FLS Int) : Int := s.l1 + sumW N s.toAdd - sumW N s.toSub
 
-def FLS.invalid : FLS := { l1 := 0, toAdd := [], toSub := [], ksq := none }
-
-def maxIncr : Nat := 4
-
-def FLS.bal (s : FLS) : Int := s.l1 + sumW N s.toAdd - sumW N s.toSub
+theorem applyPending_eq (s : FLS Int) : applyPending N s = s.bal N := by
+  unfold applyPending FLS.bal; rw [subRows_eq, addRows_eq]
 
 /-- invariant of one perspective w.r.t. the board the evaluator is tracking -/
-def Good (c : Bool) (s : FLS) (b : Board) : Prop :=
+def Good (c : Bool) (s : FLS Int) (b : Board) : Prop :=
   match s.ksq with
   | none => True
   | some k => s.bal N = fresh N c k b ∧ s.toAdd.length ≤ maxIncr ∧ s.toSub.length ≤ maxIncr
-
-def pushSub (s : FLS) (i : Nat) : FLS :=
-  if s.toSub.length < maxIncr then { s with toSub := s.toSub ++ [i] } else FLS.invalid
-def pushAdd (s : FLS) (i : Nat) : FLS :=
-  if s.toAdd.length < maxIncr then { s with toAdd := s.toAdd ++ [i] } else FLS.invalid
-
-/-- NNEvaluator::setPiece for one perspective -/
-def setPiece1 (c : Bool) (s : FLS) (sq : Sq) (oldP newP : Pc) : FLS :=
-  match s.ksq with
-  | none => s
-  | some k =>
-    let s1 := if isNonKing oldP then pushSub s (N.idx c k oldP sq) else s
-    match s1.ksq with
-    | none => s1                       -- overflow: C++ `continue`
-    | some _ => if isNonKing newP then pushAdd s1 (N.idx c k newP sq) else s1
-
-def upd (b : Board) (sq : Sq) (p : Pc) : Board := fun s => if s = sq then p else b s
 
 theorem sum_map_upd (f g : Nat → Int) (l : List Nat) (sq : Nat) (hnd : l.Nodup) (hmem : sq ∈ l)
     (hfg : ∀ s, s ≠ sq → f s = g s) : (l.map f).sum = (l.map g).sum - g sq + f sq := by
@@ -83,27 +77,22 @@ theorem sum_map_upd (f g : Nat → Int) (l : List Nat) (sq : Nat) (hnd : l.Nodup
 
 theorem fresh_upd (c : Bool) (k : Sq) (b : Board) (sq : Sq) (p : Pc) (hsq : sq < 64) :
     fresh N c k (upd b sq p) = fresh N c k b - contrib N c k b sq + contrib N c k (upd b sq p) sq := by
-  unfold fresh
+  rw [fresh_eq, fresh_eq]
   have := sum_map_upd (contrib N c k (upd b sq p)) (contrib N c k b) (List.range 64) sq
     List.nodup_range (by simp [hsq]) (by
       intro s hs; simp [contrib, upd, hs])
   rw [this]; omega
 
-end NN
-
-namespace NN
-variable (N : Net)
-
 theorem sumW_append (l : List Nat) (x : Nat) : sumW N (l ++ [x]) = sumW N l + N.W x := by
   simp [sumW]
 
-theorem good_invalid (c : Bool) (b : Board) : Good N c FLS.invalid b := by
-  simp [Good, FLS.invalid]
-
-theorem good_of_ksq_none (c : Bool) (s : FLS) (b : Board) (h : s.ksq = none) : Good N c s b := by
+theorem good_of_ksq_none (c : Bool) (s : FLS Int) (b : Board) (h : s.ksq = none) : Good N c s b := by
   simp [Good, h]
 
-theorem pushSub_spec (s : FLS) (i : Nat) :
+theorem good_clear (c : Bool) (s : FLS Int) (b : Board) : Good N c s.clear b := by
+  simp [Good, FLS.clear]
+
+theorem pushSub_spec (s : FLS Int) (i : Nat) :
     (pushSub s i).ksq = none ∨
     ((pushSub s i).ksq = s.ksq ∧ (pushSub s i).bal N = s.bal N - N.W i ∧
      (pushSub s i).toAdd = s.toAdd ∧ (pushSub s i).toSub.length ≤ maxIncr) := by
@@ -112,9 +101,9 @@ theorem pushSub_spec (s : FLS) (i : Nat) :
   · right; rw [if_pos h]
     refine ⟨rfl, ?_, rfl, by simp; omega⟩
     simp only [FLS.bal, sumW_append]; omega
-  · left; simp [h, FLS.invalid]
+  · left; simp [h, FLS.clear]
 
-theorem pushAdd_spec (s : FLS) (i : Nat) :
+theorem pushAdd_spec (s : FLS Int) (i : Nat) :
     (pushAdd s i).ksq = none ∨
     ((pushAdd s i).ksq = s.ksq ∧ (pushAdd s i).bal N = s.bal N + N.W i ∧
      (pushAdd s i).toSub = s.toSub ∧ (pushAdd s i).toAdd.length ≤ maxIncr) := by
@@ -123,10 +112,10 @@ theorem pushAdd_spec (s : FLS) (i : Nat) :
   · right; rw [if_pos h]
     refine ⟨rfl, ?_, rfl, by simp; omega⟩
     simp only [FLS.bal, sumW_append]; omega
-  · left; simp [h, FLS.invalid]
+  · left; simp [h, FLS.clear]
 
 /-- setPiece keeps the invariant when the notification matches the tracked board -/
-theorem setPiece1_good (c : Bool) (s : FLS) (b : Board) (sq : Sq) (oldP newP : Pc)
+theorem setPiece1_good (c : Bool) (s : FLS Int) (b : Board) (sq : Sq) (oldP newP : Pc)
     (hsq : sq < 64) (hold : b sq = oldP) (hg : Good N c s b) :
     Good N c (setPiece1 N c s sq oldP newP) (upd b sq newP) := by
   unfold setPiece1
@@ -172,15 +161,8 @@ theorem setPiece1_good (c : Bool) (s : FLS) (b : Board) (sq : Sq) (oldP newP : P
         refine ⟨?_, p3, p4⟩
         rw [p2, hf, hc2, if_neg hnw]; omega
 
-/-- NNEvaluator::computeL1WB for one perspective: flush pending updates or recompute; `kNow` = current king square -/
-def flush1 (c : Bool) (s : FLS) (kNow : Sq) (b : Board) : FLS :=
-  if s.ksq = some kNow then
-    { s with l1 := s.bal N, toAdd := [], toSub := [] }
-  else
-    { l1 := fresh N c kNow b, toAdd := [], toSub := [], ksq := some kNow }
-
 /-- after a flush the accumulator IS the from-scratch value for the current king square -/
-theorem flush1_exact (c : Bool) (s : FLS) (kNow : Sq) (b : Board) (hg : Good N c s b) :
+theorem flush1_exact (c : Bool) (s : FLS Int) (kNow : Sq) (b : Board) (hg : Good N c s b) :
     (flush1 N c s kNow b).l1 = fresh N c kNow b ∧ Good N c (flush1 N c s kNow b) b ∧
     (flush1 N c s kNow b).ksq = some kNow := by
   unfold flush1
@@ -188,8 +170,8 @@ theorem flush1_exact (c : Bool) (s : FLS) (kNow : Sq) (b : Board) (hg : Good N c
   · rw [if_pos h]
     have : s.bal N = fresh N c kNow b := by
       have := hg; simp only [Good, h] at this; exact this.1
-    refine ⟨this, ?_, h⟩
-    simp only [Good, h, FLS.bal, sumW, maxIncr]
+    refine ⟨by simp only [applyPending_eq]; exact this, ?_, h⟩
+    simp only [Good, h, FLS.bal, sumW, maxIncr, applyPending_eq]
     simp; exact this
   · rw [if_neg h]
     refine ⟨rfl, ?_, rfl⟩
